@@ -3098,6 +3098,38 @@ void Interpreter::call_default_constructor(
     }
 }
 
+// fix: generic constructors/destructors are registered under the impl's own
+// spelling ("Queue<T>", "Map<K, V>"); find the entry with the same base name
+// and the same number of type arguments instead of the literal base + "<T>"
+template <typename M>
+static typename M::iterator
+find_generic_registration(M &registry, const std::string &type_name) {
+    size_t lt = type_name.find('<');
+    if (lt == std::string::npos)
+        return registry.end();
+    auto arity = [](const std::string &s) {
+        int depth = 0, n = 1;
+        for (char c : s) {
+            if (c == '<')
+                depth++;
+            else if (c == '>')
+                depth--;
+            else if (c == ',' && depth == 1)
+                n++;
+        }
+        return n;
+    };
+    const std::string prefix = type_name.substr(0, lt + 1);
+    for (auto it = registry.lower_bound(prefix);
+         it != registry.end() &&
+         it->first.compare(0, prefix.size(), prefix) == 0;
+         ++it) {
+        if (it->first != type_name && arity(it->first) == arity(type_name))
+            return it;
+    }
+    return registry.end();
+}
+
 void Interpreter::call_constructor(const std::string &var_name,
                                    const std::string &struct_type_name,
                                    const std::vector<TypedValue> &args) {
@@ -3116,8 +3148,10 @@ void Interpreter::call_constructor(const std::string &var_name,
                           << std::endl;
             }
 
-            it = struct_constructors_.find(generic_key);
+            it = find_generic_registration(struct_constructors_,
+                                           struct_type_name);
             if (it != struct_constructors_.end() && !it->second.empty()) {
+                generic_key = it->first;
                 if (debug_mode) {
                     std::cerr
                         << "[GENERIC_CTOR] Found generic constructor for: "
@@ -3137,7 +3171,8 @@ void Interpreter::call_constructor(const std::string &var_name,
                 }
 
                 // デストラクタも登録
-                auto dtor_it = struct_destructors_.find(generic_key);
+                auto dtor_it = find_generic_registration(struct_destructors_,
+                                                         struct_type_name);
                 if (dtor_it != struct_destructors_.end() && dtor_it->second) {
                     register_destructor(struct_type_name, dtor_it->second);
                     if (debug_mode) {
@@ -3613,9 +3648,11 @@ void Interpreter::call_destructor(const std::string &var_name,
                     }
                 }
 
-                auto generic_it = struct_destructors_.find(generic_name);
+                auto generic_it = find_generic_registration(
+                    struct_destructors_, struct_type_name);
                 if (generic_it != struct_destructors_.end() &&
                     generic_it->second) {
+                    generic_name = generic_it->first;
                     // ジェネリックデストラクタをこの具体型用に登録
                     struct_destructors_[struct_type_name] = generic_it->second;
                     it = struct_destructors_.find(struct_type_name);
